@@ -5,7 +5,7 @@ approval takes effect exactly when the consensus members among the stored approv
 earlier; outsiders and repeats do not count; for every approval sequence and every sequence of consensus sets the
 ledger fires exactly where the property's count says; other transactions do not touch a ledger entry; (method, request)
 pairs have different ledger keys unless SHA-256 collides). Tie: thresholds translator + correspondence streams
-`gov-approvals`, `gov-pool`, `gov-registry`; the harness evaluates the property on the real handlers with its own
+`gov-approvals`, `gov-pool`, `gov-registry`, `gov-admission` (+ extract/govkeys: CheckConsensusSigns call sites); the harness evaluates the property on the real handlers with its own
 bookkeeping of who approved what since when: action applied below quorum, approvals of a withdrawn / replaced request
 counted, action not applied at quorum.
 """
